@@ -384,12 +384,27 @@ Proof.
     split; [constructor; assumption|auto].
 Qed.
 
+(* the regenerated register rule of _initialize is the documented priority:
+   register_value_map, else reset_value, else default_value *)
+Lemma sx_init_reg_spec nl dflt regmap w :
+  sx_init_reg (assoc regmap w) (reset_of nl w) dflt = init_reg nl dflt regmap w.
+Proof.
+  unfold sx_init_reg, init_reg, reset_of.
+  destruct (assoc regmap w) as [v|]; [reflexivity|].
+  destruct (kind_of nl w) as [| | |c|[r|]]; reflexivity.
+Qed.
+
+Lemma sx_init_mem_spec (memmap : list (Z * list (Z * Z))) m a dflt :
+  assoc_d (sx_init_mem (match find (fun p => fst p =? m) memmap with Some (_, d) => Some d | None => None end)) a dflt
+  = match find (fun p => fst p =? m) memmap with Some (_, d) => assoc_d d a dflt | None => dflt end.
+Proof. destruct (find (fun p => fst p =? m) memmap) as [[k d]|]; reflexivity. Qed.
+
 (* the initial state built by _initialize is related to the reference initial state *)
 Lemma init_related nl dflt regmap memmap :
   R nl dflt (init_state nl dflt regmap memmap) (sim_init nl dflt regmap memmap).
 Proof.
   unfold R, init_state, sim_init. cbn [sregs smems regvalue memvalue value].
-  split; [reflexivity|]. split.
+  split; [intro r; symmetry; apply sx_init_reg_spec|]. split.
   - intros m a. destruct (find (fun p => fst p =? m) memmap) as [[k d]|]; reflexivity.
   - intros w c Hk. rewrite Hk. reflexivity.
 Qed.
